@@ -400,6 +400,12 @@ Fixpoint ordb (l:list nat) : bool :=
 Definition doc_ordered (t:list obj) : bool := ordb (pre_ids_l t) && defs_have_ids_l t.
 
 (* ------------------------------------------------------------------ what a lookup with stop_id <= n can see *)
+(* the objects of one scope that a lookup with this stop_id looks at: everything before the
+   first object whose id is present and >= stop_id (specification of the first loop of
+   lexical_get: scan = filter cand over visible, VarsProofs.scan_visible) *)
+Fixpoint visible (stop:nat) (l:list obj) : list obj :=
+  match l with [] => [] | o :: r => if stops stop o then [] else o :: visible stop r end.
+
 (* cut every object list at the first object that stops the scan for n, recursively *)
 Fixpoint trunc_obj (n:nat) (o:obj) : obj :=
   match o with
